@@ -58,8 +58,14 @@ class ECKey(AsymmetricKey):
             raw_key = self.public_key
         return raw_key.curve.key_size
 
+    def _load_curve(self):
+        crv = self._dict_data["crv"]
+        if not isinstance(crv, str) or crv not in self.DSS_CURVES:
+            raise ValueError(f'Invalid crv value: "{crv}"')
+        return self.DSS_CURVES[crv]()
+
     def load_private_key(self):
-        curve = self.DSS_CURVES[self._dict_data["crv"]]()
+        curve = self._load_curve()
         public_numbers = EllipticCurvePublicNumbers(
             base64_to_int(self._dict_data["x"]),
             base64_to_int(self._dict_data["y"]),
@@ -71,7 +77,7 @@ class ECKey(AsymmetricKey):
         return private_numbers.private_key(default_backend())
 
     def load_public_key(self):
-        curve = self.DSS_CURVES[self._dict_data["crv"]]()
+        curve = self._load_curve()
         public_numbers = EllipticCurvePublicNumbers(
             base64_to_int(self._dict_data["x"]),
             base64_to_int(self._dict_data["y"]),
